@@ -348,6 +348,7 @@ pub enum BoardValidationError {
     InvalidCastleRights,
     InvalidEnpassant,
     TooManyPieces,
+    OpponentInCheck,
 }
 
 #[derive(Debug, Clone, Copy, PartialEq, Eq)]
@@ -406,7 +407,26 @@ impl Board {
         self.validate_en_passant()?;
         self.validate_castle_rights()?;
 
+        if self.opponent_in_check() {
+            return Err(BoardValidationError::OpponentInCheck);
+        }
+
         Ok(())
+    }
+
+    /// is the king of the side that is NOT to move attacked (it could be captured)
+    fn opponent_in_check(&self) -> bool {
+        let king = self.king_sq(!self.turn);
+        let all = self.raw.all();
+        let queens = self.raw[Piece::Queen];
+
+        let attackers = (chess_lookup::rook_moves(king, all) & (self.raw[Piece::Rook] | queens))
+            | (chess_lookup::bishop_moves(king, all) & (self.raw[Piece::Bishop] | queens))
+            | (chess_lookup::knight_moves(king) & self.raw[Piece::Knight])
+            | (chess_lookup::king_moves(king) & self.raw[Piece::King])
+            | (chess_lookup::pawn_attacks_moves(king, !self.turn) & self.raw[Piece::Pawn]);
+
+        (attackers & self.raw[self.turn]).any()
     }
 
     fn validate_en_passant(&self) -> Result<(), BoardValidationError> {
